@@ -54,6 +54,9 @@ PROBE_FILES = {
     'c18p/img/Point.1.0.dsdl': 'uint16 u\nfloat32 v\nbool ok\n@sealed\n',
     'c18p/Pair.1.0.dsdl': 'c18p.geo.Point.1.0[<=2] g\nc18p.img.Point.1.0[<=2] i\nc18p.geo.Point.1.0 a\nc18p.img.Point.1.0 b\n@sealed\n',
     'c18p/PairU.1.0.dsdl': '@union\nuint8 n\nc18p.img.Point.1.0 b\nc18p.geo.Point.1.0 a\nc18p.img.Point.1.0[<=2] i\n@sealed\n',
+    # field names that are Python keywords / builtins: the generated attribute is stropped (`if_`), the DSDL name is not
+    'c18p/K.1.0.dsdl': 'uint4 if\nint12 class\nfloat16 id\nuint4[<=3] min\nbool max\nuint8[<=4] range\nfloat32[2] len\nuint8 del\nInner.1.0 lambda\n@sealed\n',
+    'c18p/KU.1.0.dsdl': '@union\nuint4 if\nfloat16 class\nK.1.0 id\nuint8[<=3] range\nInner.1.0[<=2] list\n@sealed\n',
     'c18p/Svc.1.0.dsdl': 'uint4[<=2] q\nU.1.0 u\n@sealed\n---\nfloat16 r\nInner.1.0[<=2] l\n@extent 100 * 8\n',
 }
 
@@ -288,7 +291,9 @@ class Gen:
             return lit(vi(r.randint(-1000, 1000))), 'accept', {'float_from_int'}
         if c in (5, 6):
             if mx:
-                x = r.choice([next_up(mx), -next_up(mx), mx * 1.5, 1e39 if w == 32 else 1e6, float(2 ** 70) if w == 16 else 1e300])
+                # incl. finite values above the maximum that ROUND to the maximum in the NumPy storage type
+                near = [65505.0, 65519.9, 65512.0, -65511.99] if w == 16 else [mx + 2.0 ** 102, -(mx + 2.0 ** 102), mx + 2.0 ** 103 - 2.0 ** 76]
+                x = r.choice([next_up(mx), -next_up(mx), mx * 1.5, 1e39 if w == 32 else 1e6, float(2 ** 70) if w == 16 else 1e300] + near)
                 return lit(vf(x)), 'reject', {'float_out'}
             return lit(vf(1e308)), 'accept', {'float_in'}
         if c == 7:
@@ -957,6 +962,29 @@ def shrink_ops(entry: dict) -> dict:
     return entry
 
 
+RESERVED_NAMES = ('if class id min max range len del list object str print lambda None def from in is pass input hash all any sum map set '
+                  'dict iter next open vars zip abs bin bytes chr dir hex oct ord pow repr round slice sorted tuple format filter exec eval '
+                  'compile callable global nonlocal yield with while try raise import finally except else elif continue break await async '
+                  'assert as').split()      # Python keywords / builtins that pydsdl accepts as attribute names
+KW_TYPES = ['uint4', 'int12', 'bool', 'float16', 'float32', 'float64', 'uint8', 'truncated uint13', 'uint4[<=3]', 'uint8[<=4]', 'utf8[<=6]',
+            'int5[2]', 'float16[<=2]', 'bool[<=9]', 'Leaf.1.0', 'Leaf.1.0[<=2]', 'Leaf.1.0[2]']
+
+
+def keyword_namespace(rng: random.Random) -> dict:
+    """namespace c18k: structs and unions whose field names are Python keywords/builtins (generated attribute `name_`), mixed with
+    names that need no stropping and with names that only LOOK stropped (`if_`)"""
+    files = {'c18k/Leaf.1.0.dsdl': 'uint7 id\nint3 x\n@sealed\n'}
+    for i in range(4):
+        union = i % 2 == 1
+        n = rng.randint(2, 7)
+        names = rng.sample(RESERVED_NAMES, n) + rng.sample(['plain', 'value', 'if_x', 'x_class'], 2)
+        rng.shuffle(names)
+        lines = ['@union'] if union else []
+        lines += ['%s %s' % (rng.choice(KW_TYPES), nm) for nm in names]
+        files['c18k/W%d.1.0.dsdl' % i] = '\n'.join(lines) + '\n@sealed\n'
+    return dsdlgen.single(files)
+
+
 def adopt_own_findings(chk: core.Check) -> None:
     """known_findings.json is merged by the lead from known_findings.d/*.json; until then read our own file as well."""
     p = os.path.join(core.VERIF, 'known_findings.d', 'C18.json')
@@ -971,9 +999,10 @@ def main(chk: core.Check, replay: typing.Optional[str] = None) -> int:
     quick = chk.tier == 'quick'
     adopt_own_findings(chk)
     repo = core.REPO
-    res = core.coq_check('C18', ['pyobj'], timeout=400)
+    res = core.coq_check('C18', ['pyobj', 'pin_c18support'], timeout=400)
     chk.proof_coverage(res, [
-        'scanner of lang/py/templates/base.j2 and translator of pick_width (tools/translators/gen_c18.py)',
+        'scanner of lang/py/templates/base.j2 and translator of pick_width (tools/translators/gen_c18.py); shape pin c18support '
+        '(tools/translators/shape_pin.py) on to_builtin/_to_builtin_impl/update_from_builtin/get_class/get_model/get_attribute/set_attribute',
         'hand model Gen/PyObj.v of the generated classes, of NumPy array conversion and of update_from_builtin/to_builtin; validated by the '
         'correspondence run below, not verified',
         'extraction: Require Extraction ExtrOcamlBasic only; OCaml 4.13.1; ocaml/c18_driver.ml',
@@ -1002,6 +1031,8 @@ def main(chk: core.Check, replay: typing.Optional[str] = None) -> int:
         for i in range(n_random):
             sub = random.Random(chk.rng.getrandbits(64))
             specs.append(('r%d' % i, dsdlgen.generate(sub, n_types=12 if quick else 26, budget=600 if quick else 1200), 700 if quick else 14000))
+    if not replay:
+        specs.append(('kw', keyword_namespace(random.Random(chk.rng.getrandbits(64))), 500 if quick else 6000))
     seeds = [chk.rng.getrandbits(32) for _ in specs]
     with concurrent.futures.ThreadPoolExecutor(max_workers=min(6, len(specs))) as ex:
         results = list(ex.map(lambda a: run_namespace(a[0][0], a[0][1], a[1], a[0][2], repo, exe, chk.tier, fixed_for.get(a[0][0])),
